@@ -637,7 +637,8 @@ func (e *Engine) applyContractSig(st *State, fr *Frame, x *ssa.Call, name string
 		ord = e.ordinal(x)
 		pos = x.Pos()
 	}
-	pre := &specCtx{e: e, st: st, env: env, heaps: st.heaps, oldHeaps: st.heaps, pkg: e.pkgOfSpec(spec)}
+	preHeaps := copyHeaps(st.heaps)
+	pre := &specCtx{e: e, st: st, env: env, heaps: preHeaps, oldHeaps: preHeaps, pkg: e.pkgOfSpec(spec)}
 	for i, r := range spec.Requires {
 		lbl := r.Label
 		if lbl == "" {
@@ -650,9 +651,13 @@ func (e *Engine) applyContractSig(st *State, fr *Frame, x *ssa.Call, name string
 	}
 	oldHeaps := copyHeaps(st.heaps)
 	oldAlloc := st.alloc
-	// havoc the frame
+	// havoc the frame (all regions are evaluated in the pre-state first)
+	var regs []region
 	for _, m := range spec.Modifies {
-		e.havocRegion(st, fr, pre, m, x)
+		regs = append(regs, pre.evalRegion(m))
+	}
+	for _, r := range regs {
+		e.havocRegionR(st, fr, r, x)
 	}
 	if strings.Contains(strings.Join(spec.Text, "\n"), "allocates") || true {
 		// callee may allocate: the allocation frontier moves forward
@@ -680,7 +685,7 @@ func (e *Engine) applyContractSig(st *State, fr *Frame, x *ssa.Call, name string
 	}
 	for _, en := range spec.Ensures {
 		// "result == expr" for a scalar result defines the result: substitute instead of constraining a fresh symbol
-		if b, ok := en.E.(*EBin); ok && b.Op == "==" {
+		if b, ok := en.E.(*EBin); ok && b.Op == "==" && en.Except == nil {
 			if id, ok := b.X.(*EIdent); ok {
 				for i, rn := range spec.Results {
 					if rn != id.Name || i >= len(res) {
@@ -700,6 +705,12 @@ func (e *Engine) applyContractSig(st *State, fr *Frame, x *ssa.Call, name string
 					}
 				}
 			}
+		}
+		if en.Except != nil {
+			// clause with a known finding: callers may rely on it only outside the recorded region
+			ex := (&specCtx{e: e, st: st, env: env, heaps: preHeaps, oldHeaps: preHeaps, pkg: pre.pkg}).evalBool(en.Except)
+			st.assume(Implies(Not(ex), post.evalBool(en.E)))
+			continue
 		}
 		st.assume(post.evalBool(en.E))
 	}
@@ -727,7 +738,10 @@ func (e *Engine) pkgOfSpec(spec *FuncSpec) *ssa.Package {
 
 // havocRegion forgets the contents of the region denoted by a modifies expression.
 func (e *Engine) havocRegion(st *State, fr *Frame, ctx *specCtx, m Expr, in ssa.Instruction) {
-	r := ctx.evalRegion(m)
+	e.havocRegionR(st, fr, ctx.evalRegion(m), in)
+}
+
+func (e *Engine) havocRegionR(st *State, fr *Frame, r region, in ssa.Instruction) {
 	switch r.kind {
 	case "slice":
 		if r.obj.IsConst() && r.obj.N.Sign() == 0 {
